@@ -28,7 +28,10 @@ RULE = ('transform cases: every shape in {1..9}^2 (all parity pairs, square and 
         '(quick) / ..513 (thorough) with random real Q and shifts, NumPy double-sum oracle, size-scaled float32 tolerance; histories: '
         'systematic pairs (precision, dtype, direction, one-axis variants, argument forms, forward/backprop) and random sequences '
         '(<= 40 ops) of dft2/idft2/czt2/iczt2/dft2_backprop/idft2_backprop over pools of one-axis variants with random real Q, clear(), '
-        'precision switches, each result compared with a fresh executor and the input array checked unmodified.  Non-trivial = not '
+        'precision switches, nbytes() queries, and transforms requested through prysm.propagation.focus_fixed_sampling / '
+        'unfocus_fixed_sampling (physical units, same shared executors, one of them on the grid of a direct call), call/clear()/same call '
+        'for every entry point; each result compared with a fresh executor and the input array checked unmodified; per-dictionary entry '
+        'counts (Ein, Eout, components) and "no KeyError" compared with the Lean dictionary machine (histogram cache2_model:*).  Non-trivial = not '
         '1x1->1x1; distinct = distinct (item, input) tuples')
 ASSUMPTIONS = ['scipy.fft.fft/ifft/fft2/ifft2 compute the (iterated 1-D) DFT sums with the stated normalisation; fftshift/ifftshift '
                'rotate by n//2; next_fast_len(k) >= k (modelled as parameters with that contract)',
@@ -821,6 +824,10 @@ def gen_history(r, length):
             ops.append({'op': 'clear', 'which': ['mdft', 'czt'][int(r.integers(2))]})
         elif x < 0.12:
             ops.append({'op': 'nbytes', 'which': ['mdft', 'czt'][int(r.integers(2))]})
+        elif x < 0.15:
+            p = pool[int(r.integers(len(pool)))]
+            ops.append(dict(p, op='bad', method=['mdft', 'czt'][int(r.integers(2))], dir=-1 if r.random() < 0.5 else 1,
+                            kind=['object', 'str'][int(r.integers(2))]))
         elif x < 0.22 and disp_pool:
             ops.append({'op': 'disp', 'method': ['mdft', 'czt'][int(r.integers(2))],
                         'case': dict(disp_pool[int(r.integers(len(disp_pool)))], seed=int(r.integers(1 << 30)))})
@@ -875,6 +882,15 @@ def run_history(ops, ft, config, collect=None):
                 fail = fail or f'op {idx}: {op["which"]}.nbytes() raised {type(ex).__name__}: {str(ex)[:120]}'
             if _dict_sizes(ft) != before:
                 fail = fail or f'op {idx}: nbytes() changed the cached entries {before} -> {_dict_sizes(ft)}'
+        elif op['op'] == 'bad':
+            # a call that FAILS after the executor has set up (and cached) its bases: an array of Python objects / strings cannot be
+            # multiplied.  Whatever it raises, it must leave nothing behind that changes a later call (compared as always).
+            shp, Q, MN, shift = case_args(op)
+            junk = np.full(shp, 'x', dtype=object if op.get('kind') == 'object' else '<U1')
+            try:
+                call_impl(op['method'], op['dir'], junk, Q, MN, shift)
+            except Exception:
+                pass
         elif op['op'] == 'disp':
             # a transform requested through prysm.propagation (physical units): same shared executors, key computed there
             c = op['case']
@@ -987,6 +1003,10 @@ def systematic_histories():
                 hs.append([a, {'op': 'clear', 'which': method}, a])
                 hs.append([a, {'op': 'nbytes', 'which': method}, a, {'op': 'clear', 'which': method}, {'op': 'nbytes', 'which': method}, a])
                 hs.append([a, {'op': 'clear', 'which': 'czt' if method == 'mdft' else 'mdft'}, a])
+        for kind in ('object', 'str'):
+            a = dict(base, op='call', method=method, dir=-1)
+            hs.append([dict(base, op='bad', method=method, dir=-1, kind=kind), a])
+            hs.append([a, dict(base, op='bad', method=method, dir=-1, kind=kind), a])
         # the same grid requested through prysm.propagation and directly (n Q equal on both axes: one output spacing), both orders
         sq = {'shape': [4, 4], 'Q': [1.5, 1.5], 'samples': [5, 4], 'shift': [0.5, -1.25], 'dtype': 'complex128', 'seed': 7}
         for fn_, d in (('focus_fixed_sampling', -1), ('unfocus_fixed_sampling', 1)):
@@ -1037,6 +1057,14 @@ def _histories(ctx, ft, pr, config):
                     toks.append('C' if op['which'] == which else None)
                 elif op['op'] == 'nbytes':
                     toks.append(None)
+                elif op['op'] == 'bad':
+                    # the matrix DFT sets up (and caches) its bases before the product fails; the chirp-Z refuses the array first
+                    if which == 'mdft' and op['method'] == 'mdft':
+                        shp, Q, MN, shift = case_args(op)
+                        key = _norm_key(which, op['dir'], shp, Q, MN, shift, prec, '')
+                        toks.append('K ' + ' '.join(k.replace(' ', '') for k in key))
+                    else:
+                        toks.append(None)
                 elif op['op'] == 'disp':
                     if op['method'] != which:
                         toks.append(None)
@@ -1332,8 +1360,13 @@ MANIFEST_ENTRY = {
              'corollary routes_agree); (4) with the Q and shift conversions translated from focus_fixed_sampling / '
              'unfocus_fixed_sampling the kernel exponent of both engines is the physical x xi/(lambda f), per axis; (5) for every '
              'sequence of earlier calls and clear()s an executor call uses exactly the bases a fresh executor builds, given that '
-             'everything read while building (key components, config.*, hidden self.*) is a key field - an abstract machine: key '
-             'normalisation in _key and the two-dictionary layout are outside it. Every translated obligation is consumed by a property '
+             'everything read while building (key components, config.*, hidden self.*) is a key field; (6) the same for the dictionaries AS '
+             'THE SOURCE HANDLES THEM (several dictionaries - Ein and Eout -, only some probed in _setup_bases, written on the KeyError '
+             'path, indexed by dft2 / idft2 / dft2_backprop / idft2_backprop / czt2 after _setup_bases(key), re-initialised by clear(); '
+             'this protocol is TRANSLATED per executor and its soundness is an obligation): after every history of calls of any entry '
+             'point and clear()s a call raises no KeyError and every entry it indexes is the freshly built one (invariant by induction '
+             'over histories); examples show each soundness clause is necessary. Key normalisation in _key (broadcast / int / float) and '
+             'Python equality of keys are outside the machine (history stream only). Every translated obligation is consumed by a property '
              'theorem. MODELLED AND COMPARED each run: NumPy execution of all routes (incl. dtype promotion, argument forms, dispatch '
              'layer, Wavefront wrappers, backprop entry points, histories) against the Lean model evaluated in Float and the Lean '
              'double-sum oracle; sizes beyond 26 only against a NumPy double sum.'),
